@@ -251,12 +251,13 @@ def run(ctx: Ctx, env):
             # (3) relative body and sub-visitor on the related model
             if has_lambda:
                 news = [ev for ev in p.events if ev.kind == "new_obj"]
-                strip = [ev for ev in news if ev.data["cls"] == STRIPPER]
+                sq = {STRIPPER, env.repo.classes[STRIPPER].qual} if STRIPPER in env.repo.classes else {STRIPPER}
+                strip = [ev for ev in news if ev.data["cls"] in sq]
                 subv = [ev for ev in news if ev.data["cls"] == vcls]
                 vis = [ev for ev in p.events if ev.kind == "visit"]
                 given = (list(strip[0].data["args"]) + [v for k, v in strip[0].data.get("kwargs", {}).items() if k != "**"]) if strip else []
                 rel_ok = len(strip) >= 1 and len(given) == 1 and getattr(given[0], "path", "") == "node.lambda_.identifier" and \
-                    any(ev.data.get("vcls") == STRIPPER and getattr(ev.data.get("arg"), "path", "") == "node.lambda_.expression" for ev in vis)
+                    any(ev.data.get("vcls") in sq and getattr(ev.data.get("arg"), "path", "") == "node.lambda_.expression" for ev in vis)
                 ctx.check(rel_ok, "R3.lambda-body-made-relative", f"{label}", "the lambda body must be rewritten with "
                           "expression_relative_to_identifier(lambda.identifier, lambda.expression) before it is translated in the child's context",
                           hci.module.loc(fn), "authors/any(a: a/name eq 'x')")
